@@ -49,7 +49,18 @@ impl Arch {
         matches!(self, Arch::A(_))
     }
 
+    /// `add_tile` accepts anything that converts into bytes: textual contents are handed over as `String`,
+    /// `&str` or `Vec<u8>` depending on the id, so the same text reaches the store through different types.
     pub fn add(&mut self, id: u64, data: Vec<u8>) -> std::io::Result<()> {
+        if id % 3 != 0 && !data.is_empty() {
+            if let Ok(text) = std::str::from_utf8(&data) {
+                return if id % 3 == 1 {
+                    both!(self, pm => pm.add_tile(id, text.to_string()))
+                } else {
+                    both!(self, pm => pm.add_tile(id, text))
+                };
+            }
+        }
         both!(self, pm => pm.add_tile(id, data))
     }
 
